@@ -46,7 +46,9 @@ def run_wire(ctx, gens, nquick, nthorough, nloop, design_cfg=None):
     for g in gens:
         sc = core.generate(ctx, "MC_Wire", "Gen_Wire_%s.cfg" % g, tag="gen" + g)["scenarios"]
         total += len(sc)
-        scen += core.sample(ctx.rng, sc, (nquick if quick else nthorough) // len(gens))
+        # rare classes are always kept, the bulk is sampled
+        rare = [s for s in sc if s["out"]["kind"] == "badsend"]
+        scen += rare + core.sample(ctx.rng, sc, (nquick if quick else nthorough) // len(gens))
     ctx.notes["generated_scenarios"] = total
     scen = with_transports(ctx, scen, nloop if quick else nloop * 10)
     tf = core.run_runner(ctx, "e2e", scen, tag="e2e")
